@@ -423,6 +423,52 @@ def counting_whiles_to_for(func):
     return count
 
 
+class _Beta(ast.NodeTransformer):
+    """(lambda a, b: E)(x, y) with plain arguments  ->  E[a := x, b := y]"""
+    count = 0
+
+    def visit_Call(self, node):
+        self.generic_visit(node)
+        f = node.func
+        if isinstance(f, ast.Lambda) and not node.keywords and len(f.args.args) == len(node.args) and not f.args.vararg \
+                and not f.args.kwarg and not f.args.kwonlyargs and not f.args.defaults and not f.args.posonlyargs \
+                and all(isinstance(a, (ast.Name, ast.Attribute, ast.Constant)) and not any(isinstance(x, ast.Call) for x in ast.walk(a))
+                        for a in node.args):
+            _Beta.count += 1
+            return _Subst({p.arg: a for p, a in zip(f.args.args, node.args)}, {}).visit(copy.deepcopy(f.body))
+        return node
+
+
+def beta_reduce(func):
+    """applications of lambda expressions to plain arguments are replaced by the body (also for a local bound once to a lambda and
+    only ever called).  Returns the number of applications reduced."""
+    before = _Beta.count
+    # a local that is bound once to a lambda and only called
+    binds = {}
+    for n in ast.walk(func):
+        if isinstance(n, ast.Assign) and len(n.targets) == 1 and isinstance(n.targets[0], ast.Name):
+            binds.setdefault(n.targets[0].id, []).append(n)
+    for name, ds in binds.items():
+        if len(ds) != 1 or not isinstance(ds[0].value, ast.Lambda):
+            continue
+        stores = [x for x in ast.walk(func) if isinstance(x, ast.Name) and x.id == name and isinstance(x.ctx, (ast.Store, ast.Del))]
+        loads = [x for x in ast.walk(func) if isinstance(x, ast.Name) and x.id == name and isinstance(x.ctx, ast.Load)]
+        calls = [x for x in ast.walk(func) if isinstance(x, ast.Call) and isinstance(x.func, ast.Name) and x.func.id == name]
+        if len(stores) != 1 or len(loads) != len(calls) or not calls or any(a.arg == name for a in ast.walk(func) if isinstance(a, ast.arg)):
+            continue
+        lam = ds[0].value
+        free = {x.id for x in ast.walk(lam.body) if isinstance(x, ast.Name)} - {a.arg for a in lam.args.args}
+        if free & _stored_in([st for st in func.body]) - {name}:
+            # a free variable of the lambda is assigned somewhere in the function: moving the body could read another value
+            assigned_free = free & _stored_in(func.body)
+            if assigned_free - {name}:
+                continue
+        for c in calls:
+            c.func = copy.deepcopy(lam)
+    func2 = _Beta().visit(func)
+    return _Beta.count - before
+
+
 def dict_dispatch_to_chain(func):
     """`D = {k1: f1, ...}` (a local literal table of callables) used only as `D[key](args)` in statement position  ->
     `if key == k1: f1(args) elif ... else: raise KeyError(key)`.  Same calls under the same conditions; the chain is the form in which
@@ -1420,8 +1466,12 @@ class Inliner:
 
     def _condition_locals(self):
         self.report['counting_loops'] = {}
+        self.report['lambda_applications'] = {}
         for q, fi in self.prog.functions.items():
             if isinstance(fi.node, ast.FunctionDef):
+                k = beta_reduce(fi.node)
+                if k:
+                    self.report['lambda_applications'][q] = k
                 k = counting_whiles_to_for(fi.node)
                 if k:
                     self.report['counting_loops'][q] = k
